@@ -38,7 +38,8 @@ def check_direct(case) -> Result:
     res = Result()
     base = {k: v for k, v in case.items() if k not in ('rules', 'state')}
     base['history'] = []
-    base['control'] = case['rules']
+    split = case.get('late_from')
+    base['control'] = case['rules'] if split is None else case['rules'][:split]
     try:
         b = S.build(base)
     except Exception as e:  # noqa
@@ -55,10 +56,25 @@ def check_direct(case) -> Result:
     if stt.get('load') is not None:
         b.motor.load_torque = B.q('Torque', stt['load'])
     b.motor.pwm = stt.get('pwm_before', 1)
+    if split is not None:
+        # the control is used once with its first rules, then the remaining rules are added: they count from then on
+        try:
+            b.control.apply_rules()
+        except ValueError:
+            pass
+        try:
+            S.add_rules(b, case['rules'][split:])
+        except Exception:  # noqa
+            res.classes += ('rule-rejected',)
+            return res
+        b.motor.pwm = stt.get('pwm_before', 1)
+        res.classes += ('rules-added-after-first-use',)
     props = []
     for r, rule in zip(case['rules'], b.rules):
         if r['rule'] == 'stub':
-            props.append(r['values'][0])
+            # a stub already called once (before the late rules were added) answers with its next value
+            early = split is not None and case['rules'].index(r) < split
+            props.append(r['values'][(1 if early else 0) % len(r['values'])])
         else:
             try:
                 props.append(rule.apply())
@@ -206,6 +222,8 @@ def s_direct(draw):
                               'limit': G.qty('Current', mdl.i0 + (mdl.imax - mdl.i0) * draw(st.floats(0.05, 1.5)),
                                              draw(G.s_unit('Current')))})
     case['rules'], case['state'] = rules, stt
+    if len(rules) >= 1 and draw(st.integers(0, 3)) == 0:
+        case['late_from'] = draw(st.integers(0, len(rules) - 1))
     return case
 
 
